@@ -3,6 +3,7 @@ package rules
 import (
 	"fmt"
 	"go/types"
+	"math/big"
 	"os"
 	"time"
 
@@ -62,6 +63,9 @@ func checkC06(c *Ctx) {
 			continue
 		}
 		c.c06Sibling(fo)
+		// config.UpdateTTL as read by the refresh is the configured value, 1 minute when left zero (the constructor's copy into the
+		// instance is taken after the defaults were applied)
+		c.ctorDefaults("R06.2", "New"+sib, "config", map[string]*big.Rat{"UpdateTTL": big.NewRat(60*1000000000, 1)})
 	}
 	c.c06WithTTL()
 	c.c06Accessors()
